@@ -45,31 +45,43 @@ def _widened_arith(side):
     return None
 
 
+def _arith32(e):
+    y = _unparen(e)
+    while y is not None and y.k == "ImplicitCastExpr" and y.c and _width(y.t) == 32 and _width(y.c[0].t) == 32:
+        y = _unparen(y.c[0])
+    if y is not None and y.k == "BinaryOperator" and y.op in ("+", "*", "<<") and _width(y.t) == 32 and y.cv is None:
+        return y
+    return None
+
+
 def sites(fn):
-    """[(comparison, widened arithmetic node)]: the arithmetic is an operand of the comparison, or the only
-    value of a 64-bit local that is an operand of the comparison."""
+    """[(comparison, arithmetic node)]: the 32-bit arithmetic is widened as an operand of the comparison, or it is
+    the only value of a local (64-bit: widened when stored; 32-bit: widened when compared) that is an operand."""
     out = []
-    carried = {}        # decl of a 64-bit local -> widened arithmetic that is its only definition
-    ndefs = {}
+    defs = {}           # decl -> [value expression | None]
     for n in fn.body.walk():
         if n.k == "DeclStmt":
             for dd, init in zip(n.get("decls", []), n.c):
                 if init is not None:
-                    ndefs[dd.get("d")] = ndefs.get(dd.get("d"), 0) + 1
-                    y = _widened_arith(init)
-                    if y is not None:
-                        carried[dd.get("d")] = y
-        elif n.k in ("BinaryOperator", "CompoundAssignOperator") and (n.op == "=" or n.op.endswith("=") and n.op not in ("==", "!=", "<=", ">=")):
+                    defs.setdefault(dd.get("d"), []).append(init)
+        elif n.k in ("BinaryOperator", "CompoundAssignOperator") and n.op.endswith("=") and n.op not in ("==", "!=", "<=", ">="):
             t = n.c[0].strip_casts()
             if t is not None and t.k == "DeclRefExpr":
-                ndefs[t.get("d")] = ndefs.get(t.get("d"), 0) + 1
-        elif n.k == "UnaryOperator" and n.op in ("++", "--"):
+                defs.setdefault(t.get("d"), []).append(n.c[1] if n.op == "=" else None)
+        elif n.k == "UnaryOperator" and n.op in ("++", "--", "&"):
             t = n.c[0].strip_casts()
             if t is not None and t.k == "DeclRefExpr":
-                ndefs[t.get("d")] = ndefs.get(t.get("d"), 0) + 1
-    carried = {d: y for d, y in carried.items() if ndefs.get(d) == 1}
+                defs.setdefault(t.get("d"), []).append(None)
+    carried = {}
+    for d, vs in defs.items():
+        if len(vs) == 1 and vs[0] is not None:
+            y = _widened_arith(vs[0]) or _arith32(vs[0])
+            if y is not None:
+                carried[d] = y
     for x in fn.body.walk():
         if x.k != "BinaryOperator" or x.op not in ("<", "<=", ">", ">="):
+            continue
+        if not any(c is not None and _width(_unparen(c).t if _unparen(c).k != "ImplicitCastExpr" else _unparen(c).c[0].t) == 64 for c in x.c):
             continue
         for side in x.c:
             y = _widened_arith(side)
@@ -78,7 +90,9 @@ def sites(fn):
                 continue
             s = side.strip_casts() if side is not None else None
             if s is not None and s.k == "DeclRefExpr" and s.get("dk") == "local" and s.get("d") in carried:
-                out.append((x, carried[s.get("d")]))
+                # a 32-bit local must be widened for this comparison; a 64-bit one was widened when stored
+                if _width(s.t) == 64 or _width(_unparen(side).t) == 64:
+                    out.append((x, carried[s.get("d")]))
     return out
 
 
